@@ -197,7 +197,12 @@ func cmdShard(args []string) int {
 	}
 	var st *Stats
 	if u.Enum != nil {
-		st = u.Enum(ctx, *shard, *of)
+		if pm := withSched(func() { st = u.Enum(ctx, *shard, *of) }); pm != "" {
+			if st == nil {
+				st = newStats()
+			}
+			st.Internal = "enumerator " + u.Name + ": " + pm
+		}
 	} else {
 		e := &Explorer{sc: u.Sc, prop: *prop, bound: u.Bound, stats: newStats(), shard: *shard, of: *of, maxViol: 3, replayEvery: 200, known: ctx.Known, deadline: ctx.Deadline}
 		if *shard != 0 {
